@@ -50,10 +50,25 @@ pub fn emit_wrappers(all: &[GShape], out_dir: &str, tier: &str) {
         Fam { prop: "c07", body: "c07", batch: 4, kind: "V", timeout: 1800, mem: 4, quick_keep: 750 },
         Fam { prop: "c09", body: "c09", batch: 8, kind: "W", timeout: 1500, mem: 4, quick_keep: 1000 },
         Fam { prop: "c17", body: "c17", batch: 8, kind: "W", timeout: 1500, mem: 4, quick_keep: 1000 },
-        Fam { prop: "c13", body: "c13", batch: 6, kind: "W", timeout: 1500, mem: 4, quick_keep: 300 },
+        Fam { prop: "c13", body: "c13", batch: 6, kind: "W", timeout: 1500, mem: 4, quick_keep: 200 },
     ];
     let mut src = String::from("// generated - do not edit\n#![allow(clippy::all)]\nuse super::shapes::*;\n");
     for f in &fams {
+        // stratification: the first few shapes of every (context, root fragment) are always kept
+        let mut strat: std::collections::HashSet<usize> = std::collections::HashSet::new();
+        {
+            let mut seen: std::collections::HashMap<(u8, String), usize> = std::collections::HashMap::new();
+            for (i, g) in all.iter().enumerate() {
+                if applicable(f, g) {
+                    let c = seen.entry((g.ctx, g.t.root().to_string())).or_insert(0);
+                    if *c < 5 {
+                        strat.insert(i);
+                    }
+                    *c += 1;
+                }
+            }
+        }
+        let keep_i = |i: usize| strat.contains(&i);
         let keep = |g: &GShape| {
             tier == "thorough"
                 || f.quick_keep >= 1000
@@ -61,7 +76,7 @@ pub fn emit_wrappers(all: &[GShape], out_dir: &str, tier: &str) {
                 // the lock-value dimension is the symbolic one for C13: shapes with lock atoms always
                 || (f.body == "c13" && !(g.abs.is_empty() && g.rel.is_empty()))
         };
-        let idx: Vec<usize> = (0..all.len()).filter(|&i| applicable(f, &all[i]) && keep(&all[i])).collect();
+        let idx: Vec<usize> = (0..all.len()).filter(|&i| applicable(f, &all[i]) && (keep(&all[i]) || (f.quick_keep < 1000 && keep_i(i)))).collect();
         for (bi, chunk) in idx.chunks(f.batch).enumerate() {
             let name = format!("{}_{}_{:03}", f.prop, if f.body == "c06_d" { "d" } else { "w" }, bi);
             let mut unwind = 12usize;
